@@ -3,14 +3,14 @@ from typing import Dict
 
 from pydbml.classes import Project
 from pydbml.renderer.dbml.default.renderer import DefaultDBMLRenderer
-from pydbml.renderer.dbml.default.utils import comment_to_dbml, string_to_dbml
+from pydbml.renderer.dbml.default.utils import comment_to_dbml, name_to_dbml, string_to_dbml
 from pydbml.tools import doublequote_string
 
 
 def render_items(items: Dict[str, str]) -> str:
     items_str = ''
     for k, v in items.items():
-        items_str += f"{k}: {string_to_dbml(v)}\n"
+        items_str += f"{name_to_dbml(k)}: {string_to_dbml(v)}\n"
     return indent(items_str.rstrip('\n'), '    ') + '\n'
 
 
